@@ -223,8 +223,7 @@ let run_case (full : bool) (c : case) : unit =
     print_string (Buffer.contents out)
   end else begin
   let drv = Panels.driver_of (feat_of_env ()) (panel_of_string c.panel) in
-  let cfg = { Hal.sbw = drv.Ops.d_sbw;
-              Hal.cfg_delay_us = n_of_int (match c.delay with None -> 10000 | Some d -> d) } in
+  let cfg = Hal.mk_cfg drv.Ops.d_sbw (match c.delay with None -> None | Some d -> Some (n_of_int d)) in
   let w = ref { Hal.w_busy = parse_busy c.busy; Hal.w_fault = None; Hal.w_rst = None } in
   let d : Iface.dstate option ref = ref None in
   let dc = ref None in
